@@ -60,7 +60,7 @@ theorem multiDestLoop_congr (env : Env) (g : GasCost) (c : Call) (m : Nat) :
   intro n
   induction n with
   | zero => intro idx; unfold multiDestLoop; rfl
-  | succ n ih => intro idx; unfold multiDestLoop; simp only [addNFTToDestination_congr, verifyPayable_congr, ih]
+  | succ n ih => intro idx; unfold multiDestLoop; simp only [addNFTToDestination_congr, verifyPayableIf_congr, ih]
 theorem multiPayloadLoop_congr (env : Env) (g : GasCost) (hb : g.base = env.gas.base) :
     ∀ toks gr, multiPayloadLoop { env with gas := g } toks gr = multiPayloadLoop env toks gr := by
   intro toks
@@ -96,7 +96,7 @@ theorem depends_only_on_own_config (f : FnId) (env : Env) (c : Call) :
     rw [skvLoop_congr env (ownGas .saveKeyValue env.gas) c rfl _ _ _ (Nat.le_refl _)]; rfl
   · unfold esdtPause; rfl
   · unfold esdtPause; rfl
-  · unfold esdtTransfer; simp only [verifyPayable_congr env (ownGas .esdtTransfer env.gas)]; rfl
+  · unfold esdtTransfer; simp only [verifyPayableIf_congr env (ownGas .esdtTransfer env.gas)]; rfl
   · unfold esdtBurn; rfl
   · unfold esdtFreezeWipe; rfl
   · unfold esdtFreezeWipe; rfl
